@@ -90,7 +90,11 @@ def coll_vocab():
              (("key", "a"), ("idx", 0)), (("all",),),
              (("key", "a"), ("search", "k", "=", "1", False)),
              (("key", "a b"),), (("trav",), ("key", "a")),
-             (("anchor", "A"),), (("anchor", "A"), ("key", "a"))]
+             (("anchor", "A"),), (("anchor", "A"), ("key", "a")),
+             # (white-space inside the inner path's search terms)
+             (("search", "k", "=~", "a b", False),),
+             (("key", "a"), ("search", ".", "=", "a b", False)),
+             (("search", "a b", "^", "c d", True),)]
     out = []
     for i in inner:
         out.append((("coll", "", i),))
@@ -212,8 +216,39 @@ def run_shard(shard):
             PATHS[shard[1]], "."), "slash": paths.render(PATHS[shard[1]],
                                                           "/")})
     else:
+        if shard[1] == 0:
+            root_paths(st)
         equality(st, shard[1], shard[2])
     return st
+
+
+def root_paths(st):
+    """The path of no segments - written "" or "/" - stays that path when
+    its notation is switched, before or after it was first read."""
+    for text in ("", "/"):
+        for sep in (PathSeparators.DOT, PathSeparators.FSLASH):
+            for read_first in (False, True):
+                st.evaluations += 1
+                st.transitions += 1
+                case = {"root_text": text, "to": str(sep),
+                        "read_first": read_first}
+                path = YAMLPath(text)
+                if read_first:
+                    path.escaped  # pylint: disable=pointless-statement
+                path.separator = sep
+                shown = str(path)
+                got = (to_ast(path.escaped), len(path.unescaped),
+                       path.is_root, parse(shown))
+                if got != ((), 0, True, ()):
+                    st.fail("root-switched|%r" % text, case,
+                            "no segments", "%r: %r" % (shown, got))
+                    continue
+                path.append("zz")
+                if to_ast(path.escaped) != (("key", "zz"),):
+                    st.fail("root-switched-append|%r" % text, case,
+                            "one segment", repr(to_ast(path.escaped)))
+                    continue
+                st.outcomes["ok"] += 1
 
 
 def roundtrip(st, segs):
@@ -263,6 +298,46 @@ def roundtrip(st, segs):
             if parse(otext) != segs:
                 st.fail("switch-notation|%s|from%s" % (sig, sep), case,
                         repr(segs), "%r -> %r" % (otext, parse(otext)))
+                continue
+            # the switch changes the spelling only: the object's own parsed
+            # segments - read for the first time after the switch - are the
+            # same, in both forms the same number
+            lazy = YAMLPath(text)
+            lazy.separator = other.separator
+            try:
+                lazy_ast = to_ast(lazy.escaped)
+                lazy_n = len(lazy.unescaped)
+            except Exception as ex:       # pylint: disable=broad-except
+                lazy_ast, lazy_n = "%s: %s" % (type(ex).__name__, ex), -1
+            if lazy_ast != segs or lazy_n != len(segs):
+                st.fail("switch-then-parse|%s|from%s" % (sig, sep), case,
+                        repr(segs), "%r (%d unescaped)" % (lazy_ast, lazy_n))
+                continue
+            # ... and a segment appended to the switched path joins it as a
+            # segment; popped again, the path is as before
+            try:
+                grown = YAMLPath(text)
+                grown.separator = other.separator
+                grown.append("zz")
+                g_ast = to_ast(grown.escaped)
+                grown.pop()
+                p_ast = to_ast(grown.escaped)
+            except Exception as ex:       # pylint: disable=broad-except
+                g_ast = p_ast = "%s: %s" % (type(ex).__name__, ex)
+            if g_ast != segs + (("key", "zz"),) or p_ast != segs:
+                st.fail("switch-append-pop|%s|from%s" % (sig, sep), case,
+                        repr(segs), "%r then %r" % (g_ast, p_ast))
+                continue
+            # a parsed path popped loses exactly its last segment
+            try:
+                shorter = YAMLPath(text)
+                shorter.pop()
+                s_ast = to_ast(shorter.escaped)
+            except Exception as ex:       # pylint: disable=broad-except
+                s_ast = "%s: %s" % (type(ex).__name__, ex)
+            if s_ast != segs[:-1]:
+                st.fail("pop-parsed|%s|%s" % (sig, sep), case,
+                        repr(segs[:-1]), repr(s_ast))
                 continue
             # ... and switching on an object that was never stringified
             fresh = YAMLPath(text)
@@ -353,7 +428,9 @@ def equality(st, lo, hi):
 def replay(case):
     from vkit.props import C01
     st = core.Stats(None)
-    if "ast" in case:
+    if "root_text" in case:
+        root_paths(st)
+    elif "ast" in case:
         roundtrip(st, C01.tup(case["ast"]))
     else:
         want = C01.tup(case.get("ast_a")) == C01.tup(case.get("ast_b"))
@@ -367,6 +444,13 @@ def replay(case):
 
 
 def repro(case):
+    if "root_text" in case:
+        return ("from yamlpath import YAMLPath\n"
+                "from yamlpath.enums import PathSeparators\n"
+                "p = YAMLPath(%r); p.separator = PathSeparators.%s\n"
+                "print(repr(str(p)), list(p.escaped))\n" % (
+                    case["root_text"],
+                    "DOT" if case["to"] == "." else "FSLASH"))
     if "text" in case:
         return ("from yamlpath import YAMLPath\n"
                 "p = YAMLPath(%r)\n"
